@@ -317,3 +317,23 @@ brk("c15-valueerror-not-converted", ["C15"], (KEYS, '        except ValueError a
 brk("c15-pub-priv-names-swapped", ["C15"], (KEYS, '        self._write(private, f"{file_name_prefix}_priv.{encoding}")\n        self._write(public, f"{file_name_prefix}_pub.{encoding}")', '        self._write(public, f"{file_name_prefix}_priv.{encoding}")\n        self._write(private, f"{file_name_prefix}_pub.{encoding}")'))
 brk("c15-main-swap", ["C15"], (CONV, "        array_type,\n        array_name,\n        length_type,\n        length_name,\n        columns_count,\n        header_file,", "        array_type,\n        length_name,\n        length_type,\n        array_name,\n        columns_count,\n        header_file,"))
 ben("c15-width-ceil", ["C15"], (CONV, "            x_byte_length = (public_key_numbers.curve.key_size + 7) // 8\n            y_byte_length = (public_key_numbers.curve.key_size + 7) // 8", "            x_byte_length = -(-public_key_numbers.curve.key_size // 8)\n            y_byte_length = x_byte_length"))
+
+# ------------------------------------------------------------------ C17 parser error discipline
+brk("c17-unfix-embedded", ["C17"], (C, "                if not cls._metadata.embedded:\n                    raise ValueError(f\"Unknown parameter: {k}\")\n", ""))
+brk("c17-unfix-bitfield", ["C17"], (C, "        if not isinstance(bitval, int):\n            raise ValueError(f\"Unable to create bitfield from: {bitval}\")\n", ""))
+brk("c17-unfix-tuple-index", ["C17"], (C, "                if index >= len(value_list):\n                    raise ValueError(f\"Incomplete list. Missing: {key}\")\n", ""))
+brk("c17-unfix-signature", ["C17"], (SEC, "    def from_cbor(cls, cbstr: bytes) -> dict:\n        \"\"\"Restore SUIT representation from passed CBOR string.\"\"\"\n        raise ValueError(\"Encryption info should be created", "    def from_cbor(self) -> dict:\n        \"\"\"Restore SUIT representation from passed CBOR string.\"\"\"\n        raise ValueError(\"Encryption info should be created"))
+brk("c17-kv-no-dict-check", ["C17"], (C, "        kv_dict = cls.deserialize_cbor(cbstr)\n        if not isinstance(kv_dict, dict):\n            raise ValueError(f\"Expected key-value storage, received: {kv_dict}\")\n        for k, v in kv_dict.items():\n            if not (child", "        kv_dict = cls.deserialize_cbor(cbstr)\n        for k, v in kv_dict.items():\n            if not (child"))
+brk("c17-list-no-list-check", ["C17"], (C, "        if not isinstance(values, list):\n            raise ValueError(f\"Unable to construct list from: {values}\")\n", ""))
+brk("c17-tag-no-hasattr", ["C17"], (C, '        if not hasattr(cbor, "tag") or cls._metadata.tag.value != cbor.tag:', '        if cls._metadata.tag.value != cbor.tag:'))
+brk("c17-kvtuple-index", ["C17"], (C, "        k, v = cbor\n", "        k, v = cbor[0], cbor[1]\n"))
+brk("c17-bchar-no-type-check", ["C17"], (C, "        if (not isinstance(cbstr, bytes)) or (len(cbstr) != 1):\n            raise ValueError(f\"Unable to create component type from {cbstr}\")\n        if (ret := cbstr.decode()).isalpha():", "        if (ret := cbstr.decode(\"ascii\", \"replace\"))[0].isalpha():"))
+brk("c17-uuid-typeerror", ["C17"], (M, "        if len(cbstr) != 16:\n            raise ValueError(f\"Unable to construct UUID from: {cbstr.hex()}\")", "        if len(cbstr) != 16:\n            raise TypeError(f\"Unable to construct UUID from: {cbstr.hex()}\")"))
+brk("c17-direct-loads", ["C17"], (C, "        cbor = cls.deserialize_cbor(cbstr)\n        if not isinstance(cbor, list):\n            raise ValueError(f\"Unable to create Key/Value tuple from {cbstr}\")", "        cbor = cbor2.loads(cbstr)\n        if not isinstance(cbor, list):\n            raise ValueError(f\"Unable to create Key/Value tuple from {cbstr}\")"))
+brk("c17-catch-narrowed", ["C17"], (C, "        except Exception:\n            # Catch all exceptions since cbor2.loads raises a lot of different exceptions for invalid data:", "        except cbor2.CBORDecodeError:\n            # Catch all exceptions since cbor2.loads raises a lot of different exceptions for invalid data:"))
+brk("c17-validate-skipped", ["C17"], (C, "        # Ensure that cbor2.loads() will not consume all the available memory\n        SuitObject.validate_cbor(cbstr)\n", "        # Ensure that cbor2.loads() will not consume all the available memory\n"))
+brk("c17-from-cbor-non-bytes", ["C17"], (C, "                value[child[0]] = child[1].from_cbor(cls.ensure_cbor(v))\n        return cls(value)\n\n    def to_cbor(self) -> bytes:\n        \"\"\"Dump SUIT representation to cbor encoded bytes.\"\"\"\n        data = {}", "                value[child[0]] = child[1].from_cbor(v)\n        return cls(value)\n\n    def to_cbor(self) -> bytes:\n        \"\"\"Dump SUIT representation to cbor encoded bytes.\"\"\"\n        data = {}"))
+brk("c17-version-wrap-cycle-guard-removed-new-cycle", ["C17"], (SEC, "            \"recipients*\": SuitList,", "            \"recipients*\": cbstr(SuitList),"), (SEC, 'CoseRecipient._metadata.map["recipients*"] = CoseRecipientList', 'CoseRecipient._metadata.map["recipients*"] = cbstr(CoseRecipientList)'))
+ben("c17-isinstance-tuple", ["C17"], (C, "        if not isinstance(bitval, int):\n            raise ValueError(f\"Unable to create bitfield from: {bitval}\")\n", "        if not isinstance(bitval, (int, bool)):\n            raise ValueError(f\"Unable to create bitfield from: {bitval}\")\n"))
+ben("c17-len-guard-form", ["C17"], (C, "                if index >= len(value_list):\n                    raise ValueError(f\"Incomplete list. Missing: {key}\")\n", "                if not index < len(value_list):\n                    raise ValueError(f\"Incomplete list. Missing: {key}\")\n"))
+ben("c17-embedded-or-empty", ["C17"], (C, "                if not cls._metadata.embedded:\n                    raise ValueError(f\"Unknown parameter: {k}\")\n                for item in cls._metadata.embedded:", "                if not cls._metadata.embedded:\n                    raise ValueError(f\"Unknown parameter: {k}\")\n                for item in cls._metadata.embedded or []:"))
